@@ -210,9 +210,19 @@ def check_siblings(ck, repo, funcs, all_models):
                         (pn.meta["basis"], pn.meta["mode"], pn.meta["initial_permeances"], pn.meta.get("units")):
                     continue
                 if nonideal:
-                    ti = [(poly.key_str(c), d) for c, d in pi.out.trace if "len(" in poly.key_str(c)]
-                    tn = [(poly.key_str(c), d) for c, d in pn.out.trace if "len(" in poly.key_str(c)]
-                    if ti != tn or not ti or ti[0][1]:
+                    def curve_count(pm):
+                        """what the path knows about the number of curves: ('one',) / ('several',) / None, whatever form the test has"""
+                        for c, d in pm.out.trace:
+                            neg = False
+                            while isinstance(c, tuple) and c and c[0] == "not":
+                                c, neg = c[1], not neg
+                            if isinstance(c, tuple) and len(c) == 3 and c[0] in ("eq", "ne") and "len(" in poly.key_str(c) \
+                                    and isinstance(c[2], Rat) and c[2] == Rat.const(1):
+                                holds = (d != neg)
+                                return "one" if (holds == (c[0] == "eq")) else "several"
+                        return None
+                    ti, tn = curve_count(pi), curve_count(pn)
+                    if ti != tn or ti is None or ti == "one":
                         continue  # single-curve Arrhenius re-scaling is C05-N4's business
                     di = [d for c, d in pi.out.trace if "#b" in poly.key_str(c)]
                     dn = [d for c, d in pn.out.trace if "#b" in poly.key_str(c)]
